@@ -753,23 +753,423 @@ theorem evaluate_solo (B : Beh κ σ ι ο ε) (c : Bool) (m : M κ σ ο ε) (I
   rw [hr2] at hloop hlout
   simp only at hloop hlout
   -- a slot that is not visited holds nothing the loop body would change
-  have hidle : ∀ s, s ∉ p.2 → I.late.contains s = false ∧
-      ∀ e, p.1.ent s = some e → e.started = true → I.now < e.next := by
-    intro s hs
+  have hidle : ∀ s, s ∉ p.2 → ∀ e, p.1.ent s = some e →
+      I.late.contains s = false ∧ (e.started = true → I.now < e.next) := by
+    intro s hs e he
     refine ⟨?_, ?_⟩
     · cases hc : I.late.contains s with
       | false => rfl
       | true =>
         exfalso
         have hmem : s ∈ I.late := by simpa using hc
-        -- s is late, hence a modified slot, hence a pre-candidate when it holds an entry
-        sorry
-    · intro e he hst
+        -- s is late, hence a modified slot, hence a pre-candidate since it holds an entry
+        have hsome : ∃ e1, r1.m.ent s = some e1 := by
+          have := hpent s
+          rw [he] at this
+          cases h : r1.m.ent s with
+          | none => rw [h] at this; simp [SEq] at this
+          | some e1 => exact ⟨e1, rfl⟩
+        obtain ⟨e1, he1⟩ := hsome
+        apply hs
+        apply hcand s e1 he1
+        unfold preCands
+        simp only [hk.valid, if_true]
+        exact foldl_addCand_mem _ _ _ s (hl.sub s hmem) (by rw [he1]; rfl)
+    · intro hst
       by_cases hn : e.next < MAX_DT
       · rcases h2.cov s e he hst hn with hin | ⟨x, _, _, hlo, hle, _⟩
         · exact absurd hin hs
         · omega
       · omega
-  sorry
+  have hchain : ∀ s, SEq (p.1.ent s) (soloRec B I s (m.ent s)) := by
+    intro s; rw [← hent1 s]; exact hpent s
+  refine ⟨?_, ?_, ?_⟩
+  · intro s
+    rw [rearm_ent]
+    simp only [hfin]
+    refine SEq.trans (hloop s) ?_
+    by_cases hs : s ∈ p.2
+    · simp only [hs, if_true]
+      exact SEq.map (soloEvalE_congr B c I s) (hchain s)
+    · simp only [hs, if_false]
+      refine SEq.trans ?_ (SEq.map (soloEvalE_congr B c I s) (hchain s))
+      cases he : p.1.ent s with
+      | none => exact SEq.refl _
+      | some e =>
+        obtain ⟨hl', hn'⟩ := hidle s hs e he
+        simp only [Option.map_some]
+        rw [soloEvalE_idle B c I s e hl' hn']
+        exact SEq.refl _
+  · intro kv
+    rw [hlout.1, hout1.1]
+    simp only [List.nil_append, List.mem_filterMap]
+    constructor
+    · rintro ⟨s, _, h⟩
+      exact ⟨s, by rw [← (tickOf_congr B c I s (hchain s)).1]; exact h⟩
+    · rintro ⟨s, h⟩
+      rw [← (tickOf_congr B c I s (hchain s)).1] at h
+      by_cases hs : s ∈ p.2
+      · exact ⟨s, hs, h⟩
+      · exfalso
+        have := (tickOf_idle B c I s (p.1.ent s)
+          (by cases he : p.1.ent s with
+              | none =>
+                cases hc : I.late.contains s with
+                | false => rfl
+                | true => rw [he] at h; simp [tickOf] at h
+              | some e => exact (hidle s hs e he).1)
+          (fun e he hst => (hidle s hs e he).2 hst)).1
+        rw [this] at h; cases h
+  · intro kv
+    rw [hlout.2, hout1.2.1]
+    simp only [List.nil_append, List.mem_filterMap]
+    constructor
+    · rintro ⟨s, _, h⟩
+      exact ⟨s, by rw [← (tickOf_congr B c I s (hchain s)).2]; exact h⟩
+    · rintro ⟨s, h⟩
+      rw [← (tickOf_congr B c I s (hchain s)).2] at h
+      by_cases hs : s ∈ p.2
+      · exact ⟨s, hs, h⟩
+      · exfalso
+        have := (tickOf_idle B c I s (p.1.ent s)
+          (by cases he : p.1.ent s with
+              | none =>
+                cases hc : I.late.contains s with
+                | false => rfl
+                | true => rw [he] at h; simp [errOf] at h
+              | some e => exact (hidle s hs e he).1)
+          (fun e he hst => (hidle s hs e he).2 hst)).2
+        rw [this] at h; cases h
+
+theorem soloRec_id (B : Beh κ σ ι ο ε) (I : CycleIn κ ι) (s : Nat) (o : Option (Entry κ σ ο ε))
+    (h : I.keysModified = false) : soloRec B I s o = o := by
+  unfold soloRec; simp [h]
+
+/-- ONE CYCLE, SLOT BY SLOT: the entry of every slot after the cycle is what the slot's own machine
+    computes from the entry before it, and the value / error ticks of the cycle are exactly the ticks
+    of the individual slots. -/
+theorem cycle_solo (B : Beh κ σ ι ο ε) (c : Bool) {t : Time} {m : M κ σ ο ε} {I : CycleIn κ ι}
+    (hinv : Inv t m) (henv : EnvOk t m I) (hk : KeysOk m I) (hl : LateOk I)
+    (hok : (cycle B c m I).out.ok = true) :
+    (∀ s, SEq ((cycle B c m I).m.ent s) (soloStep B c I s (m.ent s))) ∧
+    (∀ kv, kv ∈ (cycle B c m I).out.modified ↔ ∃ s, tickOf B c I s (soloPre B I s (m.ent s)) = some kv) ∧
+    (∀ kv, kv ∈ (cycle B c m I).out.errs ↔ ∃ s, errOf B c I s (soloPre B I s (m.ent s)) = some kv) := by
+  obtain ⟨hmid, harm⟩ := upstream_mid hinv henv
+  have hup := upstream_ent m I
+  have hk1 : KeysOk (upstream m I) I := by
+    refine ⟨hk.valid, ?_, ?_⟩
+    · intro hp; rw [upstream_primed] at hp; exact hk.live hp
+    · intro hp s; rw [upstream_primed] at hp; rw [hup, hk.fresh hp s, soloUp_none]
+  simp only [soloStep_eq, soloPre_eq]
+  unfold cycle at hok ⊢
+  simp only at hok ⊢
+  split
+  · rename_i hps
+    rw [if_pos hps] at hok
+    obtain ⟨h1, h2, h3⟩ := evaluate_solo B c (upstream m I) I hmid henv.lt_max hk1 hl hok
+    refine ⟨?_, ?_, ?_⟩
+    · intro s; rw [← hup]; exact h1 s
+    · intro kv; rw [h2]; simp only [hup]
+    · intro kv; rw [h3]; simp only [hup]
+  · rename_i hps
+    obtain ⟨hkm, _, hmux⟩ := upstream_ps_ne m I hps
+    have hlate : ∀ s, I.late.contains s = false := by
+      intro s
+      have : I.late = [] := by
+        cases hl' : I.late with
+        | nil => rfl
+        | cons a as =>
+          have := hl.mux (by rw [hl']; simp)
+          rw [hmux] at this; cases this
+      rw [this]; rfl
+    have hidle : ∀ s e, (upstream m I).ent s = some e → e.started = true → I.now < e.next := by
+      intro s e he hst
+      by_cases hn : e.next < MAX_DT
+      · rcases hmid.cov s e he hst hn with hf | ⟨x, hx, _, _, hle, _⟩
+        · cases hf
+        · have := harm x hx
+          have := henv.lt_max
+          omega
+      · have := henv.lt_max; omega
+    refine ⟨?_, ?_, ?_⟩
+    · intro s
+      simp only
+      rw [← hup, soloRec_id B I s _ hkm]
+      cases he : (upstream m I).ent s with
+      | none => exact SEq.refl _
+      | some e =>
+        simp only [Option.map_some]
+        rw [soloEvalE_idle B c I s e (hlate s) (hidle s e he)]
+        exact SEq.refl _
+    · intro kv
+      simp only [List.not_mem_nil, false_iff, not_exists]
+      intro s
+      rw [← hup, soloRec_id B I s _ hkm,
+        (tickOf_idle B c I s _ (hlate s) (fun e he hst => hidle s e he hst)).1]
+      simp
+    · intro kv
+      simp only [List.not_mem_nil, false_iff, not_exists]
+      intro s
+      rw [← hup, soloRec_id B I s _ hkm,
+        (tickOf_idle B c I s _ (hlate s) (fun e he hst => hidle s e he hst)).2]
+      simp
+
+/-! ### with error capture nothing escapes the map node -/
+
+theorem childEval_ok_of_captures (B : Beh κ σ ι ο ε) (I : CycleIn κ ι) (e : Entry κ σ ο ε) :
+    (childEval B true I e).ok = true := by
+  unfold childEval
+  by_cases h : e.next ≤ I.now
+  · simp only [h, if_true]
+    generalize B.step e.key I.now (I.input e.key) e.st = sr
+    cases hs : sr.err <;> rfl
+  · simp only [h, if_false]
+
+theorem evalSlot_ok_of_captures (B : Beh κ σ ι ο ε) (I : CycleIn κ ι) (r : Rec κ σ ο ε) (s : Nat)
+    (h : r.out.ok = true) : (evalSlot B true I r s).out.ok = true := by
+  unfold evalSlot
+  rw [h]
+  simp only [Bool.not_true, Bool.false_eq_true, if_false]
+  cases he : r.m.ent s with
+  | none => exact h
+  | some e0 =>
+    simp only
+    cases hst : e0.started with
+    | false => simpa using h
+    | true =>
+      simp only [Bool.not_true, Bool.false_eq_true, if_false]
+      unfold evalStarted
+      simp only
+      generalize (if I.late.contains s = true then notifyE I.now e0 else e0) = e
+      have := childEval_ok_of_captures B I e
+      simp only [this, Bool.not_true, Bool.false_eq_true, if_false]
+
+theorem cycle_ok_of_captures (B : Beh κ σ ι ο ε) (m : M κ σ ο ε) (I : CycleIn κ ι) :
+    (cycle B true m I).out.ok = true := by
+  unfold cycle
+  simp only
+  split
+  · unfold evaluate
+    simp only
+    have h1 := (reconcile_out B I { m := upstream m I, out := { evaluated := true } }).2.2
+    generalize reconcile B I { m := upstream m I, out := { evaluated := true } } = r1 at *
+    have h2 : ∀ (l : List Nat) (r : Rec κ σ ο ε), r.out.ok = true → (l.foldl (evalSlot B true I) r).out.ok = true := by
+      intro l
+      induction l with
+      | nil => intro r h; exact h
+      | cons a as ih => intro r h; exact ih _ (evalSlot_ok_of_captures B I r a h)
+    have h3 := h2 (prepare r1.m I (upstream m I).primed).2 { r1 with m := (prepare r1.m I (upstream m I).primed).1 } h1
+    simp only [h3, Bool.not_true, Bool.false_eq_true, if_false]
+  · rfl
+
+/-! ### what a slot's machine reads: non-interference -/
+
+/-- two cycle inputs that agree on everything slot `s` (holding key `k`) can see -/
+structure SlotAgree (s : Nat) (k : κ) (I I' : CycleIn κ ι) : Prop where
+  now : I.now = I'.now
+  erased : s ∈ I.erased ↔ s ∈ I'.erased
+  notified : s ∈ I.notified ↔ s ∈ I'.notified
+  km : I.keysModified = I'.keysModified
+  removed : s ∈ I.removed ↔ s ∈ I'.removed
+  added : I.added.find? (fun sk => sk.1 == s) = I'.added.find? (fun sk => sk.1 == s)
+  addedKey : ∀ sk, I.added.find? (fun sk => sk.1 == s) = some sk → sk.2 = k
+  late : I.late.contains s = I'.late.contains s
+  input : I.input k = I'.input k
+
+theorem ite_iff {α : Type} {p q : Prop} [Decidable p] [Decidable q] (h : p ↔ q) (a b : α) :
+    (if p then a else b) = (if q then a else b) := by
+  by_cases hp : p
+  · rw [if_pos hp, if_pos (h.mp hp)]
+  · rw [if_neg hp, if_neg (fun hq => hp (h.mpr hq))]
+
+/-- the key held by a slot (if any) -/
+def KeyIs (k : κ) (o : Option (Entry κ σ ο ε)) : Prop := ∀ e, o = some e → e.key = k
+
+theorem KeyIs.map {k : κ} {o : Option (Entry κ σ ο ε)} {f : Entry κ σ ο ε → Entry κ σ ο ε}
+    (h : KeyIs k o) (hf : ∀ e, (f e).key = e.key) : KeyIs k (o.map f) := by
+  intro e he
+  cases o with
+  | none => cases he
+  | some e0 => simp at he; subst he; rw [hf]; exact h e0 rfl
+
+theorem childEval_agree (B : Beh κ σ ι ο ε) (c : Bool) {I I' : CycleIn κ ι} (e : Entry κ σ ο ε)
+    (hnow : I.now = I'.now) (hin : I.input e.key = I'.input e.key) : childEval B c I e = childEval B c I' e := by
+  unfold childEval; rw [hnow, hin]
+
+theorem soloEvalE_key (B : Beh κ σ ι ο ε) (c : Bool) (I : CycleIn κ ι) (s : Nat) (e : Entry κ σ ο ε) :
+    (soloEvalE B c I s e).key = e.key := by
+  unfold soloEvalE
+  split
+  · rw [childEval_key]; split <;> rfl
+  · rfl
+
+theorem createE_key (B : Beh κ σ ι ο ε) (I : CycleIn κ ι) (k : κ) (o : Option (Entry κ σ ο ε)) (h : KeyIs k o) :
+    (createE B I k o).key = k := by
+  unfold createE
+  cases o with
+  | none => rfl
+  | some e => simp only; split <;> exact h e rfl
+
+theorem soloStep_agree (B : Beh κ σ ι ο ε) (c : Bool) {I I' : CycleIn κ ι} (s : Nat) (k : κ)
+    (h : SlotAgree s k I I') (o : Option (Entry κ σ ο ε)) (hk : KeyIs k o) :
+    soloStep B c I s o = soloStep B c I' s o ∧ KeyIs k (soloStep B c I s o) ∧
+    tickOf B c I s (soloPre B I s o) = tickOf B c I' s (soloPre B I' s o) ∧
+    errOf B c I s (soloPre B I s o) = errOf B c I' s (soloPre B I' s o) := by
+  -- the state before the loop body
+  have hpre : soloPre B I s o = soloPre B I' s o ∧ KeyIs k (soloPre B I s o) := by
+    unfold soloPre
+    simp only
+    rw [ite_iff h.erased, ite_iff h.notified, ← h.now, ← h.km, ← h.added]
+    have hk1 : KeyIs k (if s ∈ I'.erased then none else o) := by
+      split
+      · intro e he; cases he
+      · exact hk
+    generalize (if s ∈ I'.erased then none else o) = o1 at hk1 ⊢
+    have hk2 : KeyIs k (if s ∈ I'.notified then o1.map (notifyS I.now) else o1) := by
+      split
+      · exact hk1.map (fun e => by unfold notifyS; split <;> rfl)
+      · exact hk1
+    generalize (if s ∈ I'.notified then o1.map (notifyS I.now) else o1) = o2 at hk2 ⊢
+    have hrm : (I.keysModified = true ∧ s ∈ I.removed) ↔ (I.keysModified = true ∧ s ∈ I'.removed) :=
+      ⟨fun ⟨a, b⟩ => ⟨a, h.removed.mp b⟩, fun ⟨a, b⟩ => ⟨a, h.removed.mpr b⟩⟩
+    rw [ite_iff hrm]
+    have hk3 : KeyIs k (if I.keysModified = true ∧ s ∈ I'.removed then o2.map stopE else o2) := by
+      split
+      · exact hk2.map (fun e => rfl)
+      · exact hk2
+    generalize (if I.keysModified = true ∧ s ∈ I'.removed then o2.map stopE else o2) = o3 at hk3 ⊢
+    split
+    · cases hf : I.added.find? (fun sk => sk.1 == s) with
+      | none => exact ⟨rfl, hk3⟩
+      | some sk =>
+        have hsk := h.addedKey sk hf
+        simp only
+        split
+        · exact ⟨rfl, hk3⟩
+        · have hce : createE B I sk.2 o3 = createE B I' sk.2 o3 := by
+            unfold createE freshE
+            cases o3 with
+            | none => simp only; rw [h.now, hsk, h.input]
+            | some e =>
+              have := hk3 e rfl
+              simp only; rw [h.now, this, h.input]
+          refine ⟨by rw [hce], ?_⟩
+          intro e he
+          simp at he; subst he
+          rw [createE_key B I sk.2 o3 (by rw [hsk]; exact hk3)]; exact hsk
+    · exact ⟨rfl, hk3⟩
+  obtain ⟨hpe, hpk⟩ := hpre
+  have hev : ∀ e, e.key = k → soloEvalE B c I s e = soloEvalE B c I' s e ∧
+      (childEval B c I (if I.late.contains s then notifyE I.now e else e)) =
+      (childEval B c I' (if I'.late.contains s then notifyE I'.now e else e)) := by
+    intro e he
+    have hch : (childEval B c I (if I.late.contains s then notifyE I.now e else e)) =
+        (childEval B c I' (if I'.late.contains s then notifyE I'.now e else e)) := by
+      rw [← h.late, ← h.now]
+      apply childEval_agree B c _ h.now
+      have : (if I.late.contains s = true then notifyE I.now e else e).key = k := by split <;> exact he
+      rw [this]; exact h.input
+    refine ⟨?_, hch⟩
+    unfold soloEvalE
+    rw [hch]
+  refine ⟨?_, ?_, ?_, ?_⟩
+  · rw [soloStep_eq, soloStep_eq, ← hpe]
+    cases hp : soloPre B I s o with
+    | none => rfl
+    | some e => simp only [Option.map_some]; rw [(hev e (hpk e hp)).1]
+  · rw [soloStep_eq]
+    exact hpk.map (soloEvalE_key B c I s)
+  · rw [← hpe]
+    cases hp : soloPre B I s o with
+    | none => rfl
+    | some e => unfold tickOf; simp only; rw [(hev e (hpk e hp)).2]
+  · rw [← hpe]
+    cases hp : soloPre B I s o with
+    | none => rfl
+    | some e => unfold errOf; simp only; rw [(hev e (hpk e hp)).2]
+
+/-! ### which key is live in a slot: the specification of the key set -/
+
+/-- the key set as the environment describes it, for one slot -/
+def liveStep (I : CycleIn κ ι) (s : Nat) (l : Option κ) : Option κ :=
+  let l1 := if I.keysModified = true ∧ s ∈ I.removed then none else l
+  if I.keysModified = true then
+    match I.added.find? (fun sk => sk.1 == s) with
+    | some sk => if l1.isSome then l1 else some sk.2
+    | none => l1
+  else l1
+
+/-- the key of a started entry -/
+def liveOf : Option (Entry κ σ ο ε) → Option κ
+  | some e => if e.started then some e.key else none
+  | none => none
+
+/-- the slot-store protocol of the key-set source: only removed (stopped) slots are erased, and a slot
+    that is added holds nothing (it was erased since its removal) -/
+structure StoreOk (m : M κ σ ο ε) (I : CycleIn κ ι) : Prop where
+  eraseStopped : ∀ s ∈ I.erased, ∀ e, m.ent s = some e → e.started = false
+  addFree : ∀ sk ∈ I.added, m.ent sk.1 = none ∨ sk.1 ∈ I.erased
+
+theorem liveOf_soloStep (B : Beh κ σ ι ο ε) (c : Bool) (I : CycleIn κ ι) (s : Nat) (o : Option (Entry κ σ ο ε))
+    (he : s ∈ I.erased → ∀ e, o = some e → e.started = false)
+    (ha : ∀ sk, I.added.find? (fun sk => sk.1 == s) = some sk → o = none ∨ s ∈ I.erased) :
+    liveOf (soloStep B c I s o) = liveStep I s (liveOf o) := by
+  have hev : ∀ o' : Option (Entry κ σ ο ε), liveOf (o'.map (soloEvalE B c I s)) = liveOf o' := by
+    intro o'
+    cases o' with
+    | none => rfl
+    | some e =>
+      simp only [Option.map_some, liveOf, soloEvalE_key]
+      unfold soloEvalE
+      split
+      · rw [childEval_started]
+        split <;> simp [notifyE, *]
+      · rfl
+  rw [soloStep_eq, hev]
+  unfold soloPre liveStep
+  simp only
+  -- erase does not change what is live
+  have h1 : liveOf (if s ∈ I.erased then none else o) = liveOf o := by
+    split
+    · rename_i hs
+      cases o with
+      | none => rfl
+      | some e => simp [liveOf, he hs e rfl]
+    · rfl
+  have h1n : ∀ sk, I.added.find? (fun sk => sk.1 == s) = some sk → (if s ∈ I.erased then none else o) = none := by
+    intro sk hsk
+    rcases ha sk hsk with h | h
+    · rw [h]; simp
+    · simp [h]
+  generalize (if s ∈ I.erased then none else o) = o1 at h1 h1n
+  have h2 : liveOf (if s ∈ I.notified then o1.map (notifyS I.now) else o1) = liveOf o1 ∧
+      (o1 = none → (if s ∈ I.notified then o1.map (notifyS I.now) else o1) = none) := by
+    split
+    · refine ⟨?_, fun h => by rw [h]; rfl⟩
+      cases o1 with
+      | none => rfl
+      | some e => simp only [Option.map_some, liveOf, notifyS]; split <;> simp [notifyE, *]
+    · exact ⟨rfl, id⟩
+  generalize (if s ∈ I.notified then o1.map (notifyS I.now) else o1) = o2 at h2
+  rw [← h1, ← h2.1]
+  have h3 : liveOf (if I.keysModified = true ∧ s ∈ I.removed then o2.map stopE else o2) =
+      (if I.keysModified = true ∧ s ∈ I.removed then none else liveOf o2) ∧
+      (o2 = none → (if I.keysModified = true ∧ s ∈ I.removed then o2.map stopE else o2) = none) := by
+    split
+    · refine ⟨?_, fun h => by rw [h]; rfl⟩
+      cases o2 with
+      | none => rfl
+      | some e => simp [liveOf, stopE]
+    · exact ⟨rfl, id⟩
+  generalize (if I.keysModified = true ∧ s ∈ I.removed then o2.map stopE else o2) = o3 at h3
+  rw [← h3.1]
+  split
+  · cases hf : I.added.find? (fun sk => sk.1 == s) with
+    | none => rfl
+    | some sk =>
+      have ho3 : o3 = none := h3.2 (h2.2 (h1n sk hf))
+      subst ho3
+      simp [startedO, liveOf, createE, freshE]
+  · rfl
 
 end HgVerif.MapNode
